@@ -91,7 +91,9 @@ Def(cfg, es, p0, t) ==
     [] cfg.kind = "prev"   -> PrevDef(es, t)
     [] cfg.kind = "linear" -> LinearDef(es, t)
     [] cfg.kind = "step"   -> StepDef(es, cfg.sig, t)
-    [] cfg.kind = "sum"    -> Integral(es, cfg.sig, p0, t, cfg.pt)
+    \* per-time data in m/s (pay = "flux"): times are days, "units multiplied by time and reduced" gives metres
+    [] cfg.kind = "sum"    -> LET v == Integral(es, cfg.sig, p0, t, cfg.pt)
+                              IN IF cfg.pt /\ cfg.pay = "flux" THEN RMul(v, RInt(86400)) ELSE v
     [] cfg.kind = "avg"    -> RDiv(Integral(es, cfg.sig, p0, t, TRUE), RInt(t - p0))
 
 Asserted(cfg, st, t) == cfg.kind # "stack" /\ (~IsInteg(cfg) \/ (st.npull > 0 /\ st.prev < t))
